@@ -59,6 +59,9 @@ def gen_produce(rng, K):
     return "produce_v%d" % v, data, exp, got
 
 
+G_PARTIAL = [0]
+
+
 def gen_fetch(rng, K):
     v = rng.choice((0, 2))
     topics = []
@@ -68,6 +71,13 @@ def gen_fetch(rng, K):
         for p in G.g_partitions(rng, 0, 3):
             e, hw = G.g_error(rng), G.g_int64(rng)
             msgs, rs, _ = gen_ref_set(rng, allow_m1_wrapped=False, small=True)
+            if msgs and rng.random() < 0.3:
+                # the broker cut this partition's data at max_bytes: a partial message trails the complete ones
+                # (what follows in the response belongs to the next partition)
+                extra = R.encode_message_set([(msgs[-1][0] + 1, R.encode_message(b"cut", b"x" * rng.randint(0, 40),
+                                                                                rng.choice((0, 1)), 0, None))])
+                rs = rs + extra[:rng.randint(1, len(extra) - 1)]
+                G_PARTIAL[0] += 1
             parts.append((p, e, hw, rs))
             exp.append((t, p, e, hw, msgs))
         topics.append((t, parts))
@@ -392,6 +402,9 @@ def run(spec):
         res.n_sub += 1
         res.hit("responses")
         res.hit("dec_" + name)
+        if G_PARTIAL[0]:
+            res.hit("fetch_partitions_with_a_partial_trailing_message", G_PARTIAL[0])
+            G_PARTIAL[0] = 0
         if exp not in ((), [], ({}, {})):
             res.sigs.add(sig(name, data))
         d = first_diff(tup(exp) if not isinstance(exp, tuple) or name != "metadata" else exp,
